@@ -1,0 +1,22 @@
+//go:build verif
+
+package dhcpv6
+
+// Add-only verification hooks for property C09 (no packet from the network can
+// crash or hang the gateway).  Compiled only with `-tags verif`; nothing here
+// changes behaviour.
+
+import "net"
+
+// VerifC09Handle calls the message handler receiveLoop invokes for every parsed datagram.
+func (s *Server) VerifC09Handle(msg *Message, addr *net.UDPAddr) { s.handleMessage(msg, addr) }
+
+// VerifC09SetConn installs the socket replies are written to (what Start does after ListenUDP).
+func (s *Server) VerifC09SetConn(c *net.UDPConn) { s.conn = c }
+
+// VerifC09LeaseCount returns the number of leases held.
+func (s *Server) VerifC09LeaseCount() int {
+	s.leasesMu.RLock()
+	defer s.leasesMu.RUnlock()
+	return len(s.leases)
+}
